@@ -113,6 +113,8 @@ type HarnessResult struct {
 	Samples       []map[string]interface{}
 	FpOps         int
 	ConcCombos    int
+	PrunedPrefixes int // prefixes of thread-path combinations whose relaxed event-order query is unsat
+	PartialQueries int
 	PrunedCombos  int // thread-path combinations rejected by the solver-free necessary conditions
 	Events        int
 	Blocked       int
